@@ -22,11 +22,17 @@ import (
 
 type pkgs struct {
 	fset  *token.FileSet
-	files map[string]*ast.File // path relative to repo
+	files map[string]*ast.File // path relative to repo (in the normal form of normalize.go)
+	repo  string
+	// normalisation record: functions analysed in place at their single call site, notes, and
+	// look-ups by name of such functions (a rule names a function that normAnchors does not list)
+	inlined map[string]bool
+	notes   []string
+	lost    map[string]bool
 }
 
 func load(repo string, dirs ...string) *pkgs {
-	p := &pkgs{fset: token.NewFileSet(), files: map[string]*ast.File{}}
+	p := &pkgs{fset: token.NewFileSet(), files: map[string]*ast.File{}, repo: repo, inlined: map[string]bool{}, lost: map[string]bool{}}
 	for _, d := range dirs {
 		ents, err := os.ReadDir(filepath.Join(repo, d))
 		if err != nil {
@@ -45,6 +51,7 @@ func load(repo string, dirs ...string) *pkgs {
 			p.files[filepath.Join(d, n)] = f
 		}
 	}
+	p.normalize()
 	return p
 }
 
@@ -70,6 +77,13 @@ func (p *pkgs) fn(recv, name string) *ast.FuncDecl {
 				return fd
 			}
 		}
+	}
+	k := name
+	if recv != "" {
+		k = recv + "." + name
+	}
+	if p.inlined[k] {
+		p.lost[k] = true
 	}
 	return nil
 }
@@ -233,8 +247,13 @@ func main() {
 		sb.WriteString(l + "\n")
 	}
 	sb.WriteString("end GoPlugin.Facts\n")
+	for k := range p.lost {
+		f.miss = append(f.miss, "normalize: "+k+" was analysed in place but a rule looks it up by name (add it to normAnchors)")
+		fmt.Fprintln(os.Stderr, "extract: normalize: a rule looks up "+k+", which was analysed in place; add it to normAnchors")
+	}
 	sort.Strings(f.miss)
 	f.js["_missing"] = f.miss
+	f.js["_normalized"] = p.notes
 
 	writeIfChanged(os.Args[2], sb.String())
 	js, _ := json.MarshalIndent(f.js, "", " ")
